@@ -6,6 +6,7 @@ import MagpyVerif.Lemmas.Level2Shape
 import MagpyVerif.Lemmas.OctaCarrier
 import MagpyVerif.Lemmas.Level2Post
 import MagpyVerif.Lemmas.Audit2C04
+import MagpyVerif.Lemmas.Handed
 namespace MagpyVerif.C04
 open MagpyVerif MagpyVerif.Level2
 variable {G V : Type}
@@ -436,5 +437,49 @@ example : ∃ out, getBHF (fun a : V3 ℝ => ⟨-a.x, a.y, a.z⟩) realEntries r
   rw [h0] at this
   exact ⟨_, by simp, this⟩
 end realCarrier
+
+/-! ### the handedness flip as a concrete map, read from the source (AUDIT2 C04 (b)) -/
+section Handed
+open MagpyVerif.Gen.Handed
+
+/-- what translate/gen.py finds in getBH_level2 on this run: exactly one statement under a handedness test, of the form
+`if sens.handedness == "left": B[..., pix_slice, 0] *= -1`, nothing else under such a test, and no write into `B` after it
+inside the sensor loop (so it acts on the values already rotated into the sensor frame) -/
+theorem source_handedness_branch :
+    flipSites = [("left", 0, -1)] ∧ otherStmts = 0 ∧ flipAfterRotation = true := by decide
+
+/-- the statements of the source's handedness branch, run on one field vector (numpy `*=` on component `axis`) -/
+def runFlipSites {α : Type} [Mul α] [IntCast α] (hand : String) (v : V3 α) : V3 α :=
+  flipSites.foldl (fun acc s => if s.1 = hand then V3.scaleComp s.2.1 (s.2.2 : α) acc else acc) v
+
+/-- **left_handed_flips_x**: the source's handedness branch, as regenerated, run on any vector over any ring, is
+`V3.flipX` — the function the driver streams evaluate and that instantiates the abstract `flipX` of the theorems above —
+for the literal "left", and the identity for every other value of `handedness` (the setter admits only "right") -/
+theorem left_handed_flips_x {α : Type} [Ring α] (v : V3 α) :
+    runFlipSites "left" v = V3.flipX v ∧ ∀ h : String, h ≠ "left" → runFlipSites h v = v := by
+  refine ⟨?_, fun h hh => ?_⟩
+  · simp only [runFlipSites, flipSites, List.foldl_cons, List.foldl_nil, if_true, Int.cast_neg, Int.cast_one]
+    exact V3.scaleComp_zero_neg_one v
+  · simp only [runFlipSites, flipSites, List.foldl_cons, List.foldl_nil]
+    rw [if_neg (fun e => hh e.symm)]
+
+/-- `sensor_reading` with the concrete flip: a left-handed sensor reports the NEGATED x-component and the unchanged y- and
+z-components of what the same sensor would report right-handed -/
+theorem left_handed_reading_components {α : Type} [Neg α] (left : Bool) (v : V3 α) :
+    let w := if left then V3.flipX v else v
+    w.x = (if left then -v.x else v.x) ∧ w.y = v.y ∧ w.z = v.z := by
+  cases left <;> simp
+
+/-- the flip is an involutive reflection: applying it twice is the identity, it preserves scalar products and reverses
+vector products (the image of a right-handed frame is left-handed) -/
+theorem flip_is_reflection (a b : V3 ℝ) :
+    V3.flipX (V3.flipX a) = a ∧ V3.dot (V3.flipX a) (V3.flipX b) = V3.dot a b ∧
+      V3.cross (V3.flipX a) (V3.flipX b) = -V3.flipX (V3.cross a b) :=
+  ⟨V3.flipX_involutive a, V3.flipX_dot a b, V3.flipX_cross a b⟩
+
+-- non-vacuity: x̂ × ŷ = ẑ, and the flipped pair gives -ẑ; the branch run on integers
+example : V3.cross (V3.flipX (⟨1, 0, 0⟩ : V3 Int)) (V3.flipX ⟨0, 1, 0⟩) = ⟨0, 0, -1⟩ := by decide
+example : runFlipSites "left" (⟨3, 4, 5⟩ : V3 Int) = ⟨-3, 4, 5⟩ ∧ runFlipSites "right" (⟨3, 4, 5⟩ : V3 Int) = ⟨3, 4, 5⟩ := by decide
+end Handed
 
 end MagpyVerif.C04
